@@ -30,9 +30,13 @@ class Primitive(Trimesh):
     Mesh is generated lazily when vertices or faces are requested.
     """
 
-    # ignore superclass copy directives
-    __copy__ = None
-    __deepcopy__ = None
+    # ignore superclass copy directives which pass arguments
+    # to `Trimesh.copy` that primitives don't accept
+    def __copy__(self, *args):
+        return self.copy()
+
+    def __deepcopy__(self, *args):
+        return self.copy()
 
     def __init__(self):
         # run the Trimesh constructor with no arguments
